@@ -84,6 +84,183 @@ func init() {
 	}
 }
 
+// family c09c : the causality grammar under cancellation. C01-style programs (and wide forks) on the real engine; the
+//               instance context is cancelled at a seeded moment: 0..300 µs after a task was answered (preferably
+//               the last pending one, whose token then runs to an end event), or — with the `flow.action` schedule
+//               point held — exactly between the moment a flow has taken its action and the moment it acts on it, or
+//               under perturbation of all schedule points. Recording goes on until the tracer is done (deadline);
+//               the grammar is evaluated with the cancellation traces: nothing of a flow may follow its
+//               TerminationTrace / CancellationFlowTrace.
+func init() {
+	caseFamilies["c09c"] = &caseFamily{
+		Shard: 1, Par: 12,
+		Count: func(tier string) int {
+			if tier == "thorough" {
+				return 1800
+			}
+			return 240
+		},
+		Run: c09cancelCase,
+	}
+}
+
+func c09cancelCase(out *rec.Out, idx int, rng *rec.Rng, tier string, stats map[string]int) {
+	// the program
+	var g *eng.Graph
+	loopTask := map[string]string{}
+	varsInt := map[string]int{}
+	if idx%4 == 3 {
+		g = eng.NewGraph()
+		nt := 0
+		k := 2 + rng.Intn(4)
+		br := make([]eng.Frag, k)
+		for i := range br {
+			if rng.Intn(3) > 0 {
+				nt++
+				br[i] = g.Task("task", fmt.Sprintf("T%d", nt), "")
+			}
+		}
+		nt++
+		first := g.Task("task", fmt.Sprintf("T%d", nt), "")
+		g.Wrap(g.Seq(first, g.Split("parallelGateway", "parallelGateway", "", br, nil, -1)))
+		varsInt["v0"] = 0
+		stats["program_fork"]++
+	} else {
+		o := genOptsC01(idx, tier)
+		o.kinds = []string{"task", "task", "task", "seq", "seq", "xor", "par", "par", "loop", "sub"}
+		o.tailCtask = false
+		o.undeclared = false
+		ge := &gen{g: eng.NewGraph(), rng: rng, o: o, budget: 2 + rng.Intn(o.maxNodes), vars: []string{"v0", "v1", "v2"},
+			loopTask: loopTask, stats: stats}
+		top := ge.block("", 0)
+		ge.g.Wrap(top)
+		g = ge.g
+		for _, v := range ge.vars {
+			varsInt[v] = rng.Intn(3)
+		}
+		for i := 1; i <= ge.nloop; i++ {
+			varsInt[fmt.Sprintf("c%d", i)] = 0
+		}
+		stats["program_c01"]++
+	}
+	vars := map[string]any{}
+	for k, v := range varsInt {
+		vars[k] = v
+	}
+	mode := idx % 3 // 0: delay after the answer; 1: flow.action held; 2: perturbed + delay
+	var ctl *sched.Controller
+	if mode != 0 {
+		ctl = sched.Install()
+		defer ctl.Remove()
+		if mode == 2 {
+			ctl.Perturb(uint64(idx)*13+rng.U64()%991, 1+idx/3%2)
+		}
+	}
+	stats[fmt.Sprintf("cancel_mode_%d", mode)]++
+	out.Begin("c09c", fmt.Sprintf("mode=%d", mode))
+	defer out.End()
+	in, defs, err := eng.Start(g.XML(), vars)
+	if err != nil {
+		out.Line("harness-error %v", err)
+		return
+	}
+	for _, l := range eng.ProgLines(&(*defs.Processes())[0], g.CondRPN) {
+		out.Line("prog %s", l)
+	}
+	out.Line("prog vars %s", fmtVars(varsInt))
+	stats["cases"]++
+	cancelAt := rng.Intn(4)
+	loopCount := map[string]int{}
+	cancelled := false
+	for steps := 0; steps < 60 && !cancelled; steps++ {
+		if !in.Quiesce(4 * time.Second) {
+			in.Note("obs noquiesce")
+			break
+		}
+		p := in.Pending()
+		if len(p) == 0 {
+			break
+		}
+		q := p[rng.Intn(len(p))]
+		res := map[string]int{}
+		for _, r := range g.Node(q.Node).Results {
+			res[r] = rng.Intn(3)
+		}
+		if cv, ok := loopTask[q.Node]; ok {
+			loopCount[cv]++
+			res[cv] = loopCount[cv]
+		}
+		// cancel with this answer: at the seeded step, or when it is the last pending request
+		if steps == cancelAt || (len(p) == 1 && (steps > 0 || rng.Intn(3) > 0)) {
+			cancelled = true
+			if len(p) == 1 {
+				stats["cancel_with_last_pending_answer"]++
+			} else {
+				stats["cancel_with_other_answer"]++
+			}
+			if mode == 1 {
+				// park the flow that takes the answered task's action at `flow.action`; then let it (and whoever else
+				// moves) advance `hops` actions further, one action at a time (`flow.await` is held while `flow.action`
+				// is re-armed, so no action slips through), and cancel while a flow sits between having TAKEN an
+				// action and acting on it — after hops=1 on a task → end event tail that is the end event's
+				// completeAction, i.e. the flow's last action.
+				hops := []int{0, 1, 1, 1, 2, 2, 3}[rng.Intn(7)]
+				arrived := ctl.Hold("flow.action")
+				in.NoWait = true
+				in.AnswerOK(q, res)
+				held := sched.WaitArrived(arrived, 2*time.Second)
+				for h := 0; held && h < hops; h++ {
+					atAwait := ctl.Hold("flow.await")
+					ctl.Release("flow.action")
+					sched.WaitArrived(atAwait, 200*time.Millisecond)
+					next := ctl.Hold("flow.action")
+					ctl.Release("flow.await")
+					if !sched.WaitArrived(next, 200*time.Millisecond) {
+						held = false
+					}
+				}
+				if held {
+					stats["cancel_while_action_held"]++
+				}
+				stats[fmt.Sprintf("cancel_hold_hops_%d", hops)]++
+				in.Op("cancel")
+				in.Cancel()
+				time.Sleep(time.Duration(rng.Intn(100)) * time.Microsecond)
+				ctl.Release("flow.action")
+				ctl.Release("flow.await")
+			} else {
+				in.NoWait = true
+				in.AnswerOK(q, res)
+				d := time.Duration(rng.Intn(300)) * time.Microsecond
+				if rng.Bool() {
+					d = time.Duration(rng.Intn(80)) * time.Microsecond
+				}
+				for t0 := time.Now(); time.Since(t0) < d; {
+				}
+				in.Op("cancel")
+				in.Cancel()
+			}
+			in.NoWait = false
+			break
+		}
+		in.AnswerOK(q, res)
+	}
+	if !cancelled {
+		// the run ended (or stalled) before the seeded moment: cancel at quiescence
+		in.Quiesce(2 * time.Second)
+		in.Op("cancel")
+		stats["cancel_at_quiescence"]++
+	}
+	done := in.Stop(3 * time.Second)
+	if !done {
+		stats["tracer_not_done_after_cancel"]++
+	}
+	for _, l := range in.Lines() {
+		out.Line("%s", l)
+	}
+	out.Line("obs final tracerdone=%d", rec.B(done))
+}
+
 // c09wideFork: a loop around a parallel fork with 3..7 outgoing flows (some branches empty, some a task, sometimes a
 // nested fork): the flow that reaches the fork announces 2..6 new flows in ONE FlowTrace and starts them right after
 // it, which is where an announcement could be overtaken by the first trace of a flow it announces.
